@@ -13,7 +13,7 @@ GUARD = "PIXMAN_VERIF"
 TRUSTED_BASE = [
     "Lean 4.33.0 kernel; axioms propext, Classical.choice, Quot.sound only (audited by #print axioms on every run)",
     "Lean compiler/runtime executing the model inside pixdrv",
-    "extractors tools/gen_*.py (regenerated Lean sources) and the C correspondence harness + its generator",
+    "extractors tools/gen_*.py (regenerated Lean sources; incl. the branch-only C-function translator tools/gen_cfuncs.py with the C integer semantics of Lemmas/CSem.lean) and the C correspondence harness + its generator",
     "gcc 12 / meson build of /repo's working tree; sanitizers where named",
 ]
 
